@@ -226,7 +226,7 @@ func setupCacheEnv(c *cCase) (*cacheEnv, string) {
 		cold := filepath.Join(scratch, fmt.Sprintf("cold-%d", r))
 		res2 := e.child(childOpts{Cache: cold, HeadRev: r, GetRev: r})
 		if res2.Status != res.Status {
-			return e, fmt.Sprintf("cold-cache build differs from the cache-less build: %s vs %s", res2.Status, res.Status)
+			return e, "COLD\t" + res.Status + "\t" + res2.Status
 		}
 		var ord []string
 		for _, t := range res2.Trace {
@@ -268,6 +268,12 @@ func (cacheSuite) Run(raw json.RawMessage) []Step {
 	e, why := setupCacheEnv(&c)
 	if e != nil {
 		defer os.RemoveAll(e.scratch)
+	}
+	if strings.HasPrefix(why, "COLD\t") {
+		p := strings.Split(why, "\t")
+		short := func(x string) string { return strings.ReplaceAll(strings.ReplaceAll(tailStr(x, 200), "\t", " "), "\n", " ") }
+		return []Step{{Line: "cache-cold\t" + short(p[1]) + "\t" + short(p[2]), Go: "-", Mode: "verdict", NoImpl: true,
+			Desc: "build with an empty cache directory vs build without a cache: " + short(p[2]) + " vs " + short(p[1])}}
 	}
 	if why != "" {
 		return failStep("setup", why)
